@@ -8,7 +8,11 @@ import DclabModel.DriveUtil
                                     harness probes the real code and says so → `ok`
 
     new <n>                         fresh dataset with n events (clears columns and tables) → `ok`
-    col <f> <v> …                   scalar feature f with its n values → `ok`
+    col <f> <v> …                   scalar feature f with its n values → `ok`; sent again in the
+                                    middle of a history: the data of feature f changed
+                                    (temporary feature set again, ancillary feature recomputed
+                                    after a metadata change) — from then on every step runs on
+                                    the new data, the caches in the state are kept as they are
     pip <shape> <ax> <ay> <bits>    observed point-in-polygon results of `shape` for the events'
                                     (ax, ay) coordinates → `ok`
     choice <n> <k> <p> …            observed `np.random.choice(arange(n), k, replace=False)` → `ok`
@@ -81,7 +85,11 @@ def handle (d : D) (line : String) : D × String :=
     | none => (d, "bad-op")
   | "col" :: f :: vs => match f.toNat?, vs.mapM parseVal? with
     | some f, some vs =>
-      ({ d with data := { d.data with cols := d.data.cols ++ [(f, fun i => vs.getD i .nan)] } }, "ok")
+      let c : Nat → Val := fun i => vs.getD i .nan
+      -- a column sent again replaces the earlier one (the data of an existing feature changed)
+      let cols := if d.data.has f then d.data.cols.map (fun e => if e.1 = f then (f, c) else e)
+        else d.data.cols ++ [(f, c)]
+      ({ d with data := { d.data with cols := cols } }, "ok")
     | _, _ => (d, "bad-op")
   | ["pip", s, ax, ay, bits] => match s.toNat?, ax.toNat?, ay.toNat? with
     | some s, some ax, some ay =>
